@@ -1,5 +1,6 @@
 import FinamModel.Lifecycle
 import FinamModel.Props.TrCommon
+import FinamModel.Props.TrSets
 import FinamModel.Translated.collect_adapters_input
 import FinamModel.Translated.collect_adapters_output
 import FinamModel.Translated.collect_adapters
@@ -14,52 +15,6 @@ import FinamModel.Translated.collect_adapters
 -/
 namespace Finam.Props.C03
 open Finam Finam.Py
-
-/-! ### sets as duplicate-free lists -/
-
-theorem mem_setAdd (s : List Nat) (x y : Nat) : y ∈ setAdd s x ↔ y ∈ s ∨ y = x := by
-  unfold setAdd
-  by_cases h : x ∈ s
-  · simp [h]; intro hy; subst hy; exact h
-  · simp [h]
-
-theorem nodup_setAdd (s : List Nat) (x : Nat) (hs : s.Nodup) : (setAdd s x).Nodup := by
-  unfold setAdd
-  by_cases h : x ∈ s
-  · simp [h, hs]
-  · simp [h, List.nodup_append, hs]
-    intro a ha hax; subst hax; exact h ha
-
-def addAll (s : List Nat) (xs : List Nat) : List Nat := xs.foldl setAdd s
-
-theorem addAll_append (s xs ys : List Nat) : addAll s (xs ++ ys) = addAll (addAll s xs) ys := by
-  simp [addAll, List.foldl_append]
-
-theorem mem_addAll : ∀ (xs s : List Nat) (y : Nat), y ∈ addAll s xs ↔ y ∈ s ∨ y ∈ xs := by
-  intro xs
-  induction xs with
-  | nil => intro s y; simp [addAll]
-  | cons x xs ih =>
-    intro s y
-    have := ih (setAdd s x) y
-    simp only [addAll, List.foldl_cons] at this ⊢
-    rw [this, mem_setAdd]
-    simp only [List.mem_cons]
-    constructor
-    · rintro ((h | h) | h)
-      · exact .inl h
-      · exact .inr (.inl h)
-      · exact .inr (.inr h)
-    · rintro (h | h | h)
-      · exact .inl (.inl h)
-      · exact .inl (.inr h)
-      · exact .inr h
-
-theorem nodup_addAll : ∀ (xs s : List Nat), s.Nodup → (addAll s xs).Nodup := by
-  intro xs
-  induction xs with
-  | nil => intro s h; simpa [addAll]
-  | cons x xs ih => intro s h; exact ih _ (nodup_setAdd s x h)
 
 /-! ### upwards from an input -/
 
